@@ -75,7 +75,13 @@
 //! If not, we intern the string and append to the linked list.
 //! In the worst case this can result in O(n) lookups, but in reality hash collisions are rare.
 
+#[cfg(kani)]
+use crate::verif_map as hash_map;
+#[cfg(kani)]
+use crate::verif_map::HashMap;
+#[cfg(not(kani))]
 use std::collections::hash_map;
+#[cfg(not(kani))]
 use std::collections::HashMap;
 use std::hash;
 use std::num;
